@@ -14,7 +14,7 @@
    understands (serialize_by_alias, omit_none) are read off them. *)
 From Coq Require Import List String Ascii ZArith Bool.
 From Verif Require Import PyK DialectMerge.
-From VerifGen Require Import K2 K13.
+From VerifGen Require Import K2 K13 K13C.
 From Verif Require Import C15Model C15Proofs.
 Import ListNotations.
 Open Scope string_scope.
@@ -24,12 +24,13 @@ Definition dialect_ns := list (string * kv).
 Definition read_opt (ns: dialect_ns) (key: string) : option bool :=
   match option_of ns key with KBool b => Some b | _ => None end.
 Definition opts_of (ns: dialect_ns) : opts :=
-  mkO (read_opt ns "serialize_by_alias") (read_opt ns "omit_none").
+  mkO (read_opt ns "serialize_by_alias") (read_opt ns "omit_none") (read_opt ns "omit_default").
 
 (* the attribute is a bool or Sentinel.MISSING (what Dialect declares) *)
 Definition opt_wf (ns: dialect_ns) (key: string) : bool :=
   match option_of ns key with KBool _ | KMissing => true | _ => false end.
-Definition ns_wf (ns: dialect_ns) : bool := opt_wf ns "serialize_by_alias" && opt_wf ns "omit_none".
+Definition ns_wf (ns: dialect_ns) : bool :=
+  opt_wf ns "serialize_by_alias" && opt_wf ns "omit_none" && opt_wf ns "omit_default".
 
 (* FD.merge(X), option part, as translated from the source *)
 Definition merged (fd x: dialect_ns) : PyK.res kv := merge_options (KNs fd) (KNs x) (KNs []).
@@ -101,10 +102,94 @@ Definition doc_id (v: val) : res val := C15Model.Ok v.
 Definition doc_toml (v: val) : res val :=
   match v with VDict _ => if has_none v then Err XRaw else C15Model.Ok v | _ => Err XRaw end.
 
+(* what the libraries reject / render, as far as the grammar can produce it (leaks of non-basic values through unions):
+   msgpack.packb and json.dumps raise on a date or a dataclass instance; yaml.safe_dump writes a date as a timestamp
+   (parsed back as a date, compared as ISO text) and raises on an instance *)
+Fixpoint is_basic (dates_ok: bool) (v: val) : bool :=
+  match v with
+  | VNone | VInt _ | VStr _ => true
+  | VDate _ => dates_ok
+  | VList l | VTuple l => forallb (is_basic dates_ok) l
+  | VDict kvs => forallb (fun kv => is_basic dates_ok (snd kv)) kvs
+  | VObj _ _ => false
+  end.
+Fixpoint render_dates (v: val) : val :=
+  match v with
+  | VDate s => VStr s
+  | VList l => VList (map render_dates l)
+  | VTuple l => VList (map render_dates l)
+  | VDict kvs => VDict (map (fun kv => match kv with (k, x) => (k, render_dates x) end) kvs)
+  | _ => v
+  end.
+Definition doc_basic (v: val) : res val := if is_basic false v then C15Model.Ok v else Err XRaw.
+Definition doc_yaml (v: val) : res val := if is_basic true v then C15Model.Ok (render_dates v) else Err XRaw.
+
+(* ---- which built-in format dialect touches a type of the grammar: read off the tables the kernel K13C extracts
+   from mashumaro/codecs/*.py and mashumaro/mixins/*.py on every run.  The STRATEGY part of dialects is not in this
+   model; where a built-in dialect has a strategy for `date` (pass_through turns the date member of a union into an
+   identity member and lets dates through into the document) union-reaching types are outside its domain. *)
+Definition plan_of (fmt: string) : option string :=
+  match find (fun p => match p with (m, _, _) => String.eqb m fmt end) codec_plan with
+  | Some (_, _, plan) => Some plan
+  | None => None
+  end.
+Definition dialect_name_of (fmt: string) : option string :=
+  match plan_of fmt with
+  | Some plan => if String.prefix "merge:" plan then Some (String.substring 6 (String.length plan - 6) plan) else None
+  | None => None
+  end.
+Definition strategy_types_of (dname: string) : list nat :=
+  match find (fun p => String.eqb (fst p) dname) format_dialect_strategies with
+  | Some (_, sm) => map fst sm
+  | None => []
+  end.
+Definition fmt_touches (fmt tyname: string) : bool :=
+  match dialect_name_of fmt, find (fun p => String.eqb (fst p) tyname) type_ids with
+  | Some dn, Some (_, id) => existsb (Nat.eqb id) (strategy_types_of dn)
+  | _, _ => false
+  end.
+
+Fixpoint ty_has_union (t: ty) : bool :=
+  match t with
+  | TUnion _ => true
+  | TList t' | TDict t' | TOpt t' => ty_has_union t'
+  | TTuple ts => existsb ty_has_union ts
+  | _ => false
+  end.
+Definition env_has_union (E: env) : bool :=
+  existsb (fun d => existsb (fun f => ty_has_union (f_ty f)) (c_fields d)) E.
+Definition fmt_sets (fmt opt: string) : bool :=
+  match dialect_name_of fmt with
+  | Some dn => match find (fun p => String.eqb (fst p) dn) format_dialect_options with
+               | Some (_, os) => existsb (fun p => String.eqb (fst p) opt) os
+               | None => false end
+  | None => false
+  end.
+(* outside the domain of the format model: a union somewhere and a built-in dialect that has a strategy for `date`
+   or sets no_copy_collections (then Dict[str,str] / List[int] members become identity members of the union) *)
+Definition strategy_sensitive (fmt: string) (E: env) (t: ty) : bool :=
+  (ty_has_union t || env_has_union E) && (fmt_touches fmt "date" || fmt_sets fmt "no_copy_collections").
+
+Definition doc_for (fmt: string) : val -> res val :=
+  if String.eqb fmt "toml" then doc_toml
+  else if String.eqb fmt "yaml" then doc_yaml
+  else if String.eqb fmt "orjson" then doc_id       (* orjson renders dates itself; instances only leak through unions *)
+  else doc_basic.
+Definition reorders_keys (fmt: string) : bool := String.eqb fmt "toml" || String.eqb fmt "yaml".
+
+Example fmt_touches_table :
+  map (fun f => fmt_touches f "date") ["msgpack"; "orjson"; "json"; "yaml"; "toml"] = [false; true; false; false; true].
+Proof. vm_compute. reflexivity. Qed.
+Example fmt_sets_table :
+  map (fun f => fmt_sets f "no_copy_collections") ["msgpack"; "orjson"; "json"; "yaml"; "toml"] = [true; true; false; false; true].
+Proof. vm_compute. reflexivity. Qed.
+
 (* ------------------------------------------------------------------ *)
 Lemma in_loop_by_alias : In "serialize_by_alias" merge_loop_keys.
 Proof. simpl. tauto. Qed.
 Lemma in_loop_omit_none : In "omit_none" merge_loop_keys.
+Proof. simpl. tauto. Qed.
+Lemma in_loop_omit_default : In "omit_default" merge_loop_keys.
 Proof. simpl. tauto. Qed.
 
 Lemma read_merged a b r key :
@@ -119,6 +204,15 @@ Qed.
 
 (* the layers of the mixin entry point (X with the call, FD as default) and of the codec entry point
    (FD.merge(X) as default) resolve every option of every class alike, unless X contradicts a Config *)
+Lemma opt_merge_swap x c fdo :
+  opt_compat x c = true ->
+  opt_or x (opt_or c (opt_or fdo false)) =
+  opt_or None (opt_or c (opt_or (match x with Some v => Some v | None => fdo end) false)).
+Proof.
+  unfold opt_compat. destruct x as [b|], c as [b'|]; simpl; intros H; try reflexivity.
+  apply Bool.eqb_prop in H. subst. reflexivity.
+Qed.
+
 Lemma format_layers_agree E fd ns r :
   ns_wf ns = true ->
   (forall k, In k merge_loop_keys ->
@@ -126,20 +220,19 @@ Lemma format_layers_agree E fd ns r :
   dialect_compat_o E (opts_of ns) = true ->
   forall d d', In d E -> same_shape d d' ->
     eff_by_alias (opts_of ns) (opts_of fd) d' = eff_by_alias no_opts (opts_of r) d /\
-    eff_omit_none (opts_of ns) (opts_of fd) d' = eff_omit_none no_opts (opts_of r) d.
+    eff_omit_none (opts_of ns) (opts_of fd) d' = eff_omit_none no_opts (opts_of r) d /\
+    eff_omit_default (opts_of ns) (opts_of fd) d' = eff_omit_default no_opts (opts_of r) d.
 Proof.
-  intros Hwf Hspec Hc d d' Hin [_ [_ [_ [[Hba Hon] _]]]].
-  unfold ns_wf in Hwf. apply andb_true_iff in Hwf. destruct Hwf as [W1 W2].
+  intros Hwf Hspec Hc d d' Hin [_ [_ [_ [[Hba Hon] [[Hod _] _]]]]].
+  unfold ns_wf in Hwf. apply andb_true_iff in Hwf. destruct Hwf as [Hwf W3].
+  apply andb_true_iff in Hwf. destruct Hwf as [W1 W2].
   unfold dialect_compat_o in Hc. rewrite forallb_forall in Hc. specialize (Hc d Hin).
-  apply andb_true_iff in Hc. destruct Hc as [C1 C2].
-  unfold eff_by_alias, eff_omit_none, opts_of. simpl. rewrite <- Hba, <- Hon.
-  rewrite (read_merged fd ns r _ in_loop_by_alias W1 Hspec), (read_merged fd ns r _ in_loop_omit_none W2 Hspec).
-  unfold opts_of in C1, C2. simpl in C1, C2. unfold opt_compat in C1, C2.
-  split.
-  - destruct (read_opt ns "serialize_by_alias") as [b|], (c_by_alias d) as [b'|]; simpl; try reflexivity.
-    apply Bool.eqb_prop in C1. subst. reflexivity.
-  - destruct (read_opt ns "omit_none") as [b|], (c_omit_none d) as [b'|]; simpl; try reflexivity.
-    apply Bool.eqb_prop in C2. subst. reflexivity.
+  apply andb_true_iff in Hc. destruct Hc as [Hc C3]. apply andb_true_iff in Hc. destruct Hc as [C1 C2].
+  unfold eff_by_alias, eff_omit_none, eff_omit_default, opts_of. simpl. rewrite <- Hba, <- Hon, <- Hod.
+  rewrite (read_merged fd ns r _ in_loop_by_alias W1 Hspec), (read_merged fd ns r _ in_loop_omit_none W2 Hspec),
+          (read_merged fd ns r _ in_loop_omit_default W3 Hspec).
+  unfold opts_of in C1, C2, C3. simpl in C1, C2, C3.
+  repeat split; apply opt_merge_swap; assumption.
 Qed.
 
 Section FormatTheorems.
@@ -211,7 +304,7 @@ Definition ns5 (ba on: kv) : dialect_ns :=
    ("no_copy_collections", KMissing)].
 Definition fd_toml : dialect_ns := ns5 KMissing (KBool true).       (* TOMLDialect.omit_none = True *)
 Definition E_fm : env :=
-  [mkC "A" None [mkF "x" (Some "a_x") TInt; mkF "y" None (TOpt TInt)] None (Some false) true].
+  [mkC "A" None [mkF "x" (Some "a_x") TInt; mkF "y" None (TOpt TInt)] None (Some false) None [] false false false true].
 Definition v_fm := VObj "A" [("x", VInt 1); ("y", VNone)].
 
 Lemma format_priority_witness :
@@ -224,8 +317,8 @@ Proof. split; vm_compute; reflexivity. Qed.
 (* non-vacuity: TOML's built-in omit_none reaches the codec through the translated merge although the user dialect
    only asks for aliases; all three entry points give the same document *)
 Definition E_fx : env :=
-  [mkC "A" None [mkF "x" (Some "a_x") TInt; mkF "y" None (TOpt TInt)] None None true;
-   mkC "B" None [mkF "l" None (TList (TData "A")); mkF "m" None (TDict (TData "A"))] None None true].
+  [mkC "A" None [mkF "x" (Some "a_x") TInt; mkF "y" None (TOpt TInt)] None None None [] false false false true;
+   mkC "B" None [mkF "l" None (TList (TData "A")); mkF "m" None (TDict (TData "A"))] None None None [] false false false true].
 Definition v_fx := VObj "B" [("l", VList [VObj "A" [("x", VInt 1); ("y", VNone)]]);
                              ("m", VDict [("k", VObj "A" [("x", VInt 2); ("y", VInt 3)])])].
 Lemma format_example :
@@ -239,3 +332,44 @@ Proof.
   repeat split; try (vm_compute; reflexivity);
     intros k Hk; simpl in Hk; repeat (destruct Hk as [<-|Hk]; [simpl; discriminate|]); destruct Hk.
 Qed.
+
+(* ------------------------------------------------------------------ *)
+(* the built-in format dialects AS READ FROM THE SOURCE (kernel K13C: format_dialect_options), completed with
+   Sentinel.MISSING for the options they do not set *)
+Definition complete_ns (os: list (string * kv)) : dialect_ns :=
+  map (fun k => (k, match ns_get os k with Some v => v | None => KMissing end)) merge_loop_keys.
+
+Lemma ns_get_complete os k : In k merge_loop_keys -> ns_get (complete_ns os) k <> None.
+Proof.
+  unfold complete_ns. induction merge_loop_keys as [|k0 r IH]; simpl; [tauto|].
+  intros [->|Hin]; [rewrite String.eqb_refl; discriminate|].
+  destruct (String.eqb k0 k); [discriminate|apply IH; exact Hin].
+Qed.
+
+Lemma complete_has_keys os : has_keys merge_loop_keys (complete_ns os).
+Proof. intros k Hk. apply ns_get_complete. exact Hk. Qed.
+
+Definition builtin_dialects : list (string * dialect_ns) :=
+  map (fun p => (fst p, complete_ns (snd p))) format_dialect_options.
+
+Section BuiltinTheorems.
+  Context {D: Type}.
+  Variable doc : val -> res D.
+
+  (* for every built-in dialect the source defines, every user dialect given as its set options, every shape *)
+  Theorem format_agree_builtin name fd xs E t v :
+    In (name, fd) builtin_dialects -> ns_wf (complete_ns xs) = true ->
+    no_lookalike_union E t = true -> dialect_compat_o E (opts_of (complete_ns xs)) = true -> names_ok E = true ->
+    exact E v t = true ->
+    fmt_encode doc EMixin E fd (Some (complete_ns xs)) t v = fmt_encode doc ECodec E fd (Some (complete_ns xs)) t v.
+  Proof.
+    intros Hin Hwf Hl Hc Hn Hex. unfold builtin_dialects in Hin. apply in_map_iff in Hin.
+    destruct Hin as [[n os] [Heq _]]. inversion Heq; subst.
+    apply (format_agree_dialect doc); try assumption; apply complete_has_keys.
+  Qed.
+End BuiltinTheorems.
+
+(* TOML's omit_none is among them (non-vacuity of the built-in table w.r.t. the modelled options) *)
+Example builtin_toml_omit_none :
+  exists fd, In ("TOMLDialect", fd) builtin_dialects /\ opts_of fd = mkO None (Some true) None.
+Proof. eexists. split; [vm_compute; right; right; left; reflexivity|vm_compute; reflexivity]. Qed.
